@@ -117,6 +117,10 @@ public:
                             Add::dict_add_term(
                                 d_, _mulnum(_mulnum(temp, q.second), coef2),
                                 term);
+                        } else if (deep) {
+                            // term may be an Add (sqrt(x+y)*sqrt(x+y)): it
+                            // must not become a key of d_
+                            _coef_dict_add_term(_mulnum(temp, q.second), term);
                         } else {
                             Add::dict_add_term(d_, _mulnum(temp, q.second),
                                                term);
@@ -168,8 +172,11 @@ public:
                         Add::dict_add_term(
                             d_, _mulnum(_mulnum(q.second, a_coef), coef2),
                             term);
+                    } else if (deep) {
+                        // term may be an Add (sqrt(x+y)*sqrt(x+y)): it must
+                        // not become a key of d_
+                        _coef_dict_add_term(_mulnum(a_coef, q.second), term);
                     } else {
-                        // TODO: check if it's a Add
                         Add::dict_add_term(d_, _mulnum(a_coef, q.second), term);
                     }
                 }
